@@ -306,7 +306,7 @@ PROPS = {
         "run": run_c08,
         "level": "fault_enumeration",
         "design_ref": "DESIGN.md section 4 C08",
-        "level_text": "Fault enumeration on the unmodified CLI with a file-system observer (destination snapshot before/after: existence, bytes) and strace: emission failure at every statement position 0..n-1 of programs with n = 1..6 (quick) / 1..12, 40 (thorough) statements, destination = /dev/full, missing parent directory, destination is a directory, parent is not a directory, and ENOSPC/EIO injected by strace on the k-th write() of a successful run; each with the destination pre-existing (sentinel contents) and absent. Exit 0 must mean a complete, correct file; non-zero must leave the destination untouched.",
+        "level_text": "Fault enumeration on the unmodified CLI with a file-system observer (destination snapshot before/after: existence, bytes) and strace: emission failure at every statement position 0..n-1 of programs with n = 1..6 (quick) / 1..12, 40 (thorough) statements, destination = a device that accepts no data (a private character-device node like /dev/full), missing parent directory, destination is a directory, parent is not a directory, and ENOSPC/EIO injected by strace on the k-th write() of a successful run; each with the destination pre-existing (sentinel contents) and absent. Exit 0 must mean a complete, correct file; non-zero must leave the destination untouched.",
         "level_note": "For injected write errors clause 1 (no swallowed error) is asserted; a partial regular file left behind by a mid-write failure is reported under its own key.",
         "technique": "fault injection + runtime monitoring: destination-file observer and strace syscall fault injection on the real binary",
         "rule": "case = (program, fault kind/position, destination pre-existing or absent); distinct = distinct cases; all are non-trivial",
